@@ -215,7 +215,7 @@ def m3(ctx, al, count, maxlen, maxmem):
         lb = rng.randint(0, 7)
         la = rng.randint(1, maxmem + 1)
         b = [rng.choice([-3, -2, -1, 0, 0, 1, 1, 2, 3, 5]) for _ in range(lb)]
-        a = [rng.choice([1, 1, 1, -1, 2, 4])] + [rng.choice([-2, -1, 0, 0, 0, 1, 1, 2]) for _ in range(la - 1)]
+        a = [rng.choice([1, 1, -1, 2, 3, -3, 5, 6])]      # (not only powers of two: 1/a0 must not be used rounded) + [rng.choice([-2, -1, 0, 0, 0, 1, 1, 2]) for _ in range(la - 1)]
         n = rng.randint(0, maxlen)
         while n > 0 and not growth_ok(b, a, n):
             n -= 1
